@@ -49,6 +49,21 @@ type enRender struct {
 	r    *rand.Rand // nil: the canonical spelling
 	cont []string   // what `continue` must do first in the enclosing loops (loop variable increment of while/do spellings)
 	fin  int        // for-in nesting depth (array names)
+	fn   *enFunc    // the function being rendered (nil: a BEGIN / rule / END block)
+}
+
+// has: the function being rendered has this parameter (the return-value stream gives its functions private for-in arrays LT<d>, a
+// never-assigned local lu and a temporary lr; see retval.go)
+func (x *enRender) has(param string) bool {
+	if x.fn == nil {
+		return false
+	}
+	for _, p := range x.fn.Params {
+		if p == param {
+			return true
+		}
+	}
+	return false
 }
 
 func (x *enRender) alt(n int) int {
@@ -270,6 +285,15 @@ func (x *enRender) e(e *enE) string {
 			as = append(as, enStrip(x.e(a)))
 		}
 		return e.V + "(" + strings.Join(as, ", ") + ")"
+	case "isnull":
+		if x.alt(2) == 1 {
+			return "((gt = " + enStrip(x.e(e.A)) + ") == 0 && gt == \"\")"
+		}
+		return "isnull(" + enStrip(x.e(e.A)) + ")"
+	case "key":
+		return "XK[" + enStrip(x.e(e.A)) + "]"
+	case "catlen":
+		return "length(\"<\" " + x.e(e.A) + " \">\")"
 	case "err":
 		ts := enErrTexts[e.V]
 		return ts[e.N%len(ts)]
@@ -468,8 +492,12 @@ func (x *enRender) stmt(s *enS, ind string) string {
 		d := strconv.Itoa(x.fin)
 		x.fin++
 		x.cont = append(x.cont, "")
-		out := ind + "delete T" + d + "\n" + ind + "for (q" + d + " = 0; q" + d + " < " + strconv.Itoa(s.N) + "; q" + d + "++) T" + d + "[q" + d + "] = 1\n" +
-			ind + "for (kk" + d + " in T" + d + ") " + x.block(s.Body, ind) + "\n"
+		tn, qn, kn := "T"+d, "q"+d, "kk"+d
+		if x.has("LT" + d) { // the array and the two variables are locals: a callee (or a deeper activation) has its own
+			tn, qn, kn = "LT"+d, "lq"+d, "lkk"+d
+		}
+		out := ind + "delete " + tn + "\n" + ind + "for (" + qn + " = 0; " + qn + " < " + strconv.Itoa(s.N) + "; " + qn + "++) " + tn + "[" + qn + "] = 1\n" +
+			ind + "for (" + kn + " in " + tn + ") " + x.block(s.Body, ind) + "\n"
 		x.cont = x.cont[:len(x.cont)-1]
 		x.fin--
 		return out
@@ -490,7 +518,13 @@ func (x *enRender) stmt(s *enS, ind string) string {
 		return ind + "next\n"
 	case "ret":
 		if s.E == nil {
+			if x.has("lu") && x.alt(3) == 1 { // lu is never assigned: `return lu` returns the uninitialised value, as `return` does
+				return ind + "return lu\n"
+			}
 			return ind + "return\n"
+		}
+		if x.has("lr") && x.alt(4) == 1 {
+			return ind + "{ lr = " + enStrip(x.e(s.E)) + "; return lr }\n"
 		}
 		return ind + "return " + enStrip(x.e(s.E)) + "\n"
 	case "break":
@@ -515,8 +549,10 @@ func enSource(p *enProg, r *rand.Rand) string {
 	x := &enRender{r: r}
 	var b strings.Builder
 	for _, f := range p.Funcs {
+		x.fn = f
 		b.WriteString("function " + f.Name + "(" + strings.Join(f.Params, ", ") + ") " + x.block(f.Body, "") + "\n")
 	}
+	x.fn = nil
 	for _, bl := range p.Begin {
 		b.WriteString("BEGIN " + x.block(bl, "") + "\n")
 	}
